@@ -1806,6 +1806,30 @@ func (c *Ctx) appendConvertsTail() string {
 		return true
 	})
 	if !found {
+		// or: assignEach(data[n:], s.valueType)
+		ast.Inspect(fd.Body, func(n ast.Node) bool {
+			call, ok := n.(*ast.CallExpr)
+			if !ok {
+				return true
+			}
+			di, ti, ok := c.assignEachHelper(c.DeclOf(c.Callee(call)))
+			if !ok || di >= len(call.Args) || ti >= len(call.Args) {
+				return true
+			}
+			se, ok := unparen(call.Args[di]).(*ast.SliceExpr)
+			if !ok || se.High != nil || se.Low == nil {
+				return true
+			}
+			xid, ok1 := unparen(se.X).(*ast.Ident)
+			lid, ok2 := unparen(se.Low).(*ast.Ident)
+			if ok1 && ok2 && c.Obj(xid) == dObj && c.Obj(lid) == nObj && nosp(c.Src(call.Args[ti])) == "s.valueType" {
+				found = true
+				stores++ // the helper's store stands for the loop's
+			}
+			return true
+		})
+	}
+	if !found {
 		return "no loop converts the elements from the old length to the new one with assign(s.valueType)"
 	}
 	if stores != 1 {
@@ -1921,14 +1945,34 @@ func newSliceConverts(c *Ctx, r *R) {
 			loop = rs
 		}
 	}
-	if !r.check(loop != nil, "NewSlice converts", c.Pos(fd), "every element is stored back through assign(valueType)", "NewSlice no longer converts every element to the element type: untyped constants in a literal, a make, a variadic pack or a host slice keep the untyped tag") {
+	var loopAt ast.Node
+	if loop != nil {
+		loopAt = loop
+	} else {
+		// or a top-level call of an assign-each helper over the whole data
+		for _, st := range fd.Body.List {
+			es, ok := st.(*ast.ExprStmt)
+			if !ok {
+				continue
+			}
+			call, ok := unparen(es.X).(*ast.CallExpr)
+			if !ok {
+				continue
+			}
+			if di, ti, ok := c.assignEachHelper(c.DeclOf(c.Callee(call))); ok && di < len(call.Args) && ti < len(call.Args) &&
+				nosp(c.Src(call.Args[di])) == "data" && nosp(c.Src(call.Args[ti])) == "valueType" {
+				loopAt = es
+			}
+		}
+	}
+	if !r.check(loopAt != nil, "NewSlice converts", c.Pos(fd), "every element is stored back through assign(valueType)", "NewSlice no longer converts every element to the element type: untyped constants in a literal, a make, a variadic pack or a host slice keep the untyped tag") {
 		return
 	}
 	// nothing returns before the loop except on empty data
 	early := ""
 	ast.Inspect(fd.Body, func(n ast.Node) bool {
 		rs, ok := n.(*ast.ReturnStmt)
-		if !ok || rs.Pos() > loop.Pos() {
+		if !ok || rs.Pos() > loopAt.Pos() {
 			return true
 		}
 		empty := false
